@@ -164,6 +164,9 @@ func (e *Engine) Discharge(cfg SolverCfg) {
 }
 
 func raceOne(ob *Obligation, file string, cfg SolverCfg) {
+	if ob.Cover && cfg.Timeout > 3*time.Second {
+		cfg.Timeout = 3 * time.Second
+	}
 	ctx, cancel := context.WithCancel(context.Background())
 	defer cancel()
 	res := make(chan solverRun, len(cfg.Solvers))
@@ -222,6 +225,10 @@ func raceOne(ob *Obligation, file string, cfg SolverCfg) {
 	}
 	ob.Seconds = time.Since(t0).Seconds()
 	ob.Status = "unknown"
+	if ob.Cover {
+		// reachability could not be decided (quantified hypotheses): not a failure
+		ob.Status = "inconclusive"
+	}
 }
 
 func firstLines(s string, n int) string {
